@@ -38,6 +38,7 @@ type httpSim struct {
 	lines     []string
 	faultAt   int
 	polls     int
+	conns     []string // per request: the connection it arrived on
 	done      chan struct{}
 	timeoutS  int // time-out of the program under test: silence lasts longer than that
 }
@@ -63,6 +64,21 @@ func (h *httpSim) transcript() ([]string, int) {
 	return append([]string(nil), h.lines...), h.faultAt
 }
 
+// connIDs numbers the connections in order of first use (1, 2, ...), one id per request.
+func (h *httpSim) connIDs() []int {
+	h.mu.Lock()
+	defer h.mu.Unlock()
+	ids := map[string]int{}
+	var out []int
+	for _, c := range h.conns {
+		if _, ok := ids[c]; !ok {
+			ids[c] = len(ids) + 1
+		}
+		out = append(out, ids[c])
+	}
+	return out
+}
+
 func (h *httpSim) handle(w http.ResponseWriter, r *http.Request) {
 	h.mu.Lock()
 	q, _ := url.QueryUnescape(r.URL.RawQuery)
@@ -73,6 +89,7 @@ func (h *httpSim) handle(w http.ResponseWriter, r *http.Request) {
 		line += "?" + q
 	}
 	h.lines = append(h.lines, line)
+	h.conns = append(h.conns, r.RemoteAddr) // one client port per TCP connection
 	idx := len(h.lines)
 	if strings.Contains(q, "<show><jobs>") {
 		h.polls++ // every poll counts, answered or not
